@@ -262,7 +262,7 @@ def run_variant(spec: dict[str, Any], asg: dict[str, list[list[Any]]] | None, st
     except Exception:  # noqa: BLE001  (unsupported kernel forms)
         pass
     return {"status": "ok", "outputs": rr.outputs, "structure": structure(bp), "bp": bp,
-            "rbw": rbw, "interp_outputs": iout, "interp_oob": ioob,
+            "cp": cp, "env": b.env(vset), "rbw": rbw, "interp_outputs": iout, "interp_oob": ioob,
             "applied": applied, "decl": {k: (tuple(int(s) for s in v.shape), str(v.dtype))
                                           for k, v in outs.items()},
             "canary": rr.canary_violations}
@@ -352,6 +352,15 @@ def attribute(spec: dict[str, Any], asg: Any, var: dict[str, Any], probs: list[A
             if tb and ok_int:
                 col.histo("trusted_base_disagreements", "value:" + "+".join(sorted(tb)))
                 continue
+            oname = extra.get("output")
+            if ok_int and oname in ref and var.get("cp") is not None:
+                with np.errstate(all="ignore"):
+                    w = ref[oname].astype(var["outputs"][oname].dtype)
+                if c01.floor_subscripts_repair(var["cp"], var["bp"], var["env"], oname, w,
+                                               8.0 * spread[oname]):
+                    col.histo("trusted_base_disagreements",
+                              "value:loopy-C:subscript-floor-division-printed-truncating")
+                    continue
         if coarse.startswith("C07:codegen:") and asg:
             try:
                 ids = [int(k) for k, tags in asg.items()
